@@ -55,7 +55,11 @@ Inductive top :=
 | TDowngrade (s : nat) (k : N)             (* RwLockWriteGuard::downgrade of the most recent guard of s (k = the lock's max_readers) *)
 | TMerge (s : nat)                         (* SemaphorePermit::merge of the two most recent permits of s *)
 | TSplit (s : nat) (n : N)                 (* SemaphorePermit::split(n) of the most recent permit of s *)
-| TOsIsClosed (o : nat).                   (* oneshot Sender::is_closed *)
+| TOsIsClosed (o : nat)                    (* oneshot Sender::is_closed *)
+| TOcSet (x : nat) (v : N)                 (* OnceCell::set(v): 0 Ok, 1 AlreadyInitializedError, 2 InitializingError *)
+| TOcGet (x : nat)                         (* OnceCell::get *)
+| TOcInit (x : nat) (v : N) (y : nat) (ok : bool).
+                                           (* get_or_init(|| async { y yields; v }) (ok) / get_or_try_init(.. Err) (not ok) *)
 
 Definition TG_SPAWNT : N := 50. Definition TG_JOINT : N := 51. Definition TG_SPAWNA : N := 52. Definition TG_AWAITA : N := 53.
 Definition TG_YIELD : N := 54. Definition TG_END : N := 55. Definition TG_START : N := 56.
@@ -72,6 +76,7 @@ Definition TG_WBORROWUPD : N := 104. Definition TG_WHASCHANGED : N := 105. Defin
 Definition TG_WDROPTX : N := 108. Definition TG_WDROPRX : N := 109. Definition TG_WSUBSCRIBE : N := 110. Definition TG_WCLOSED : N := 111.
 Definition TG_WINFO : N := 112.
 Definition TG_DOWNGRADE : N := 113. Definition TG_MERGE : N := 114. Definition TG_SPLIT : N := 115. Definition TG_OSISCLOSED : N := 116.
+Definition TG_OCSET : N := 117. Definition TG_OCGET : N := 118. Definition TG_OCINIT : N := 119.
 Definition TG_MISUSE : N := 98.          (* the harness refused the operation (dead endpoint, nothing held, ...) *)
 
 (* permits / guards held by a body: (semaphore object, permits), newest first *)
@@ -88,6 +93,27 @@ Fixpoint split_held (s : nat) (n : N) (hs : list (nat * N)) : option (list (nat 
   | [] => None
   | (s', k) :: r => if Nat.eqb s s' then (if N.leb n k then Some ((s', (k - n)%N) :: r) else None)
                     else match split_held s n r with Some r' => Some ((s', k) :: r') | None => None end
+  end.
+
+(* ---- OnceCell (wrappers/tokio/impls/tokio/inner/src/sync/once_cell.rs): x = its Semaphore::new(1), x+1 = the cell
+   [value_set; value] (value_set is a real std AtomicBool: no scheduling point) ---- *)
+Definition oc_new : list obj := [tok_sem_new 1%N [0%N]; OCell [0%N; 0%N] []].
+Definition oc_read (st : store) (x : nat) : option (list N) :=
+  match get_obj st (S x) with Some (OCell v _) => Some v | _ => None end.
+(* set_value: write, value_set.store(true), semaphore.close(), permit.forget() (whose drop is add_permits(0)) *)
+Definition oc_set_value (x : nat) (v : N) (k : code) : code :=
+  atomic_u (fun e st => match get_obj st (S x) with
+                        | Some (OCell _ c) => Some (e, set_obj st (S x) (OCell [1%N; v] c))
+                        | _ => None end)
+    (sem_close_code x (sem_release_code x 0 k)).
+(* the initialiser of the harness: y yields, then the value *)
+Fixpoint oc_yields (y : nat) (ctx : pctx) (jt : nat) (k : code) : code :=
+  match y with
+  | O => k
+  | S y' => match ctx with
+            | CtxTask => await_yield CtxTask jt Panic (oc_yields y' ctx jt k)
+            | CtxBlockOn => yield_code (oc_yields y' ctx jt k)
+            end
   end.
 
 (* what a body still holds when it returns is dropped newest first: each drop is add_permits(n) = release(n) *)
@@ -333,6 +359,37 @@ Fixpoint tcomp (fuel : nat) (jt : nat) (bodies : list (list top)) (b : nat) (ctx
                        | Some held' => Log TG_SPLIT [1%N] (go r hs js ((s, n) :: held') fs ahs)
                        | None => Log TG_SPLIT [0%N] (go r hs js held fs ahs) end
            | None => misuse end
+         | TOcSet x v =>
+           Atomic (fun e st => match oc_read st x with Some l => Some (e, st, l) | None => None end)
+             (fun a => match a with
+                       | [1%N; _] => Log TG_OCSET [1%N] (go r hs js held fs ahs)
+                       | _ => sem_try_code x 1 (fun res =>
+                                match res with
+                                | AOk => oc_set_value x v (Log TG_OCSET [0%N] (go r hs js held fs ahs))
+                                | ANoPermits => Log TG_OCSET [2%N] (go r hs js held fs ahs)
+                                | AClosed => Log TG_OCSET [1%N] (go r hs js held fs ahs)
+                                end)
+                       end)
+         | TOcGet x =>
+           Atomic (fun e st => match oc_read st x with Some l => Some (e, st, l) | None => None end)
+             (fun a => Log TG_OCGET (match a with [1%N; v] => [1%N; v] | _ => [0%N] end) (go r hs js held fs ahs))
+         | TOcInit x v y ok =>
+           Atomic (fun e st => match oc_read st x with Some l => Some (e, st, l) | None => None end)
+             (fun a => match a with
+                       | [1%N; cur] => Log TG_OCINIT [1%N; cur] (go r hs js held fs ahs)
+                       | _ =>
+                         acquire_ctx ctx jt x 1 (fun got =>
+                           if got then
+                             oc_yields y ctx jt
+                               (if ok then oc_set_value x v (Log TG_OCINIT [1%N; v] (go r hs js held fs ahs))
+                                else (* Err(e): the permit is dropped, the next caller gets its turn *)
+                                  sem_release_code x 1 (Log TG_OCINIT [0%N] (go r hs js held fs ahs)))
+                           else
+                             Atomic (fun e st => match oc_read st x with Some l => Some (e, st, l) | None => None end)
+                               (fun b => match b with
+                                         | [_; cur] => Log TG_OCINIT [1%N; cur] (go r hs js held fs ahs)
+                                         | _ => Panic end))
+                       end)
          | TOsIsClosed o =>
            atomic_b (fun e st => Some (e, st, os_tx_alive st o))
              (fun alive =>
